@@ -6,7 +6,10 @@
                              integers n and ALL strings c: the real function is run on representation-hiding proxies - an integer known only by its position
                              relative to the integer literals of the function, a string that supports only ==, != and formatting - so that completing on a
                              proxy proves the outcome is the same for every value the proxy stands for               (+ is_connectivity_supported)
-  C08.gate.entrypoints       GROUND: every public entry point x (n in 1..8) x (all names + "", "zzz", "Linear", "ALL"): raises <=> not advertised
+  C08.gate.entrypoints       GROUND: every public entry point x (n in 1..8) x (all documented names, junk names and EVERY name for which a table file exists
+                             in the data directory): raises <=> not advertised
+  C08.gate.dominates_lookup  every table-reading entry point passes the gate with its own (n, connectivity) before the first lookup (call monitor in the verifier
+                             process) - together with gate.post this covers every connectivity string, not only the probed ones
   C08.invalid_input          GROUND: ALL 2^(2n^2) matrix pairs x sign vectors for n = 2 (thorough: n = 3 too), structured + seeded invalid inputs above:
                              get_preparation_circuit raises on every invalid input and is exact on valid ones; get_readout_circuit raises or returns a circuit that
                              diagonalises every given operator
@@ -176,6 +179,75 @@ def entry_job(args):
     return out
 
 
+def dominance_job(cfg):
+    """contract: every public entry point calls the configuration gate with its own (n, connectivity) BEFORE the first table lookup"""
+    n, name = cfg
+    from qiskit import QuantumCircuit
+    from htstabilizer.stabilizer import Stabilizer
+    import htstabilizer.stabilizer_circuits as sc
+    import htstabilizer.mub_circuits as mc
+    import htstabilizer.connectivity_support as cs
+    import htstabilizer.tomography as T
+    import htstabilizer.circuit_lookup as cl
+    log = []
+    real_gate = cs.assert_connectivity_is_supported
+    real_sl, real_ml = cl.stabilizer_circuit_lookup, cl.mub_circuit_lookup
+
+    def gate(nq, c):
+        log.append(("gate", nq, c))
+        return real_gate(nq, c)
+
+    def sl(nq, c, k):
+        log.append(("lookup", nq, c))
+        return real_sl(nq, c, k)
+
+    def ml(nq, c):
+        log.append(("lookup", nq, c))
+        return real_ml(nq, c)
+
+    patched = []
+    for mod in (sc, mc, cs, T):
+        if getattr(mod, "assert_connectivity_is_supported", None) is real_gate:
+            patched.append((mod, "assert_connectivity_is_supported", real_gate))
+            setattr(mod, "assert_connectivity_is_supported", gate)
+    cl.stabilizer_circuit_lookup, cl.mub_circuit_lookup = sl, ml
+    out = []
+    try:
+        st = Stabilizer(["I" * q + "Z" + "I" * (n - 1 - q) for q in range(n)])
+        qc = QuantumCircuit(n)
+        qc.h(0)
+        eps = {
+            "get_preparation_circuit": lambda: sc.get_preparation_circuit(st, name),
+            "get_readout_circuit": lambda: sc.get_readout_circuit(st, name),
+            "compress_preparation_circuit": lambda: sc.compress_preparation_circuit(qc, name),
+            "get_mub_circuits": lambda: mc.get_mub_circuits(n, name),
+            "get_mubs": lambda: mc.get_mubs(n, name),
+            "get_mub_info": lambda: mc.get_mub_info(n, name),
+            "stabilizer_measurement_circuit": lambda: T.stabilizer_measurement_circuit(qc, st, name),
+            "full_state_tomography_circuits": lambda: T.full_state_tomography_circuits(qc, name),
+        }
+        for ep, call in eps.items():
+            del log[:]
+            try:
+                call()
+            except Exception:
+                pass
+            first_lookup = next((i for i, e in enumerate(log) if e[0] == "lookup"), None)
+            if first_lookup is None:
+                ok, why = False, "no table lookup observed"
+            else:
+                lk = log[first_lookup]
+                ok = any(e[0] == "gate" and e[1] == lk[1] and e[2] == lk[2] for e in log[:first_lookup])
+                why = f"first events: {log[:3]}"
+            out.append(("C08.gate.dominates_lookup", ok, f"dom:{ep}:{n}:{name}", f"{ep} on ({n}, {name!r}) reads a lookup table without first passing the configuration gate ({why})",
+                        {"n": n, "connectivity": name, "entry_point": ep}))
+    finally:
+        for mod, attr, val in patched:
+            setattr(mod, attr, val)
+        cl.stabilizer_circuit_lookup, cl.mub_circuit_lookup = real_sl, real_ml
+    return out
+
+
 def classify_input(n, gens):
     return P.is_valid_stabilizer(n, gens)
 
@@ -267,8 +339,11 @@ def run(ctx: core.Ctx):
         ctx.families[f].name = f
     gate_proxies(ctx)
     t = time.time()
-    names = docs.NAMES + ["", "zzz", "Linear", "ALL"]
+    file_names = sorted({c for _, c, _ in adapt.data_files("stabilizer")} | {c for _, c, _ in adapt.data_files("mub")})
+    names = sorted(set(docs.NAMES + ["", "zzz", "Linear", "ALL"]) | set(file_names))      # every name for which ANY table file exists is probed
+    ctx.extra["connectivity_names_probed"] = names
     res = core.pmap(entry_job, [(n, nm) for n in range(1, 9) for nm in names], chunks=1)
+    res += core.pmap(dominance_job, docs.ADVERTISED, chunks=1)
     rnd = random.Random(ctx.seed + 8)
     jobs = []
     p2 = all_pairs(2)
@@ -286,7 +361,7 @@ def run(ctx: core.Ctx):
         for famname, ok, key, what, rp in r:
             fam = ctx.family(famname, GROUND, "native")
             fam.exhaustive = True
-            fam.domain = "10 entry points x n in 1..8 x 13 names"
+            fam.domain = "10 entry points x n in 1..8 x all names (documented names, junk names, every name with a table file)" if "entrypoints" in famname else "8 table-reading entry points x 20 advertised configurations"
             ctx.record(fam, PROVED if ok else REFUTED, rp if fam.total < 2 else None)
             if not ok:
                 ctx.violate(fam, key, what, rp)
